@@ -174,7 +174,8 @@ impl<'a> MCtx<'a> {
             let sigs: Vec<SingleSignature> =
                 members.iter().map(|i| decode_single_json(self.honest[*i].as_ref().unwrap()).expect("honest decodes")).collect();
             if let Ok(a) = self.w.aggregate(&sigs, &self.msg) {
-                out.push((format!("clerk{members:?}"), aggregate_to_cand(&a).expect("aggregate json"), true, mask == full_mask));
+                // every aggregate the real clerk produces is explored to the full mutation depth
+                out.push((format!("clerk{members:?}"), aggregate_to_cand(&a).expect("aggregate json"), true, true));
             }
             let entries: Vec<CSig> = members.iter().map(|i| self.honest[*i].clone().unwrap()).collect();
             out.push((format!("hand{members:?}"), self.hand_built(entries), false, mask == full_mask));
@@ -318,6 +319,13 @@ impl<'a> MCtx<'a> {
                 push(format!("sig{p}.sigma=own-over-other-message"), with(&move |x| x.sigma = sg.clone()));
                 let sg = w.raw_sign(i, &self.msg);
                 push(format!("sig{p}.sigma=own-over-bare-message"), with(&move |x| x.sigma = sg.clone()));
+                if let Some(o) = &self.honest_other[i] {
+                    let o = o.clone();
+                    push(format!("sig{p}=own-signature-on-other-message"), with(&move |x| {
+                        x.sigma = o.sigma.clone();
+                        x.indexes = o.indexes.clone();
+                    }));
+                }
             }
             let mut inf = vec![0u8; 48];
             inf[0] = 0xc0;
@@ -929,7 +937,7 @@ pub fn run(ctx: &Ctx) -> ! {
                     cases.push(Case { world: *wi, msg_is_a: *is_a, depth: 1, honest: false, name: format!("{bname}/{n1}"), cand: c1.clone() });
                 }
             }
-            // two simultaneous deviations: from the clerk's aggregate of all signers and the hand-built full aggregate
+            // two simultaneous deviations: from every aggregate of the clerk and from the hand-built full aggregate
             if depth >= 2 && *deep_base {
                 for (n1, c1) in &first {
                     for (n2, c2) in mc.mutations(c1) {
